@@ -83,7 +83,10 @@ def oracle(case: dict, recs: list[dict]) -> list[Failure]:
     quiet = bool(case.get("quiet"))
     seen_ids: list[str] = []
     last_id = None
-    restart_requested = False
+    restart_credit = 0      # accepted Restart requests (user / method) not yet consumed by a completed restart
+    episode = False         # a restart is in progress (System State Restarting seen, new run id not yet)
+    stop_req = False        # a Stop request was accepted during the current run
+    start_pending = False   # a Start request was accepted since the previous tick
     prev = recs[0]
 
     def fail(key, i, msg):
@@ -102,11 +105,17 @@ def oracle(case: dict, recs: list[dict]) -> list[Failure]:
                     fail(f"accept-mismatch-{op[1]}", i, f"state {prev['state']} holding={prev['ctl'][1]}: "
                                                         f"{'accepted' if got else 'rejected'}")
                 if got and op[1] == "Restart":
-                    restart_requested = True
+                    restart_credit += 1
+                if got and op[1] == "Stop":
+                    stop_req = True
+                if got and op[1] == "Start":
+                    start_pending = True
             elif op[0] == "user" and r["res"] == "ok":
                 fail("unknown-command-accepted", i, repr(op[1]))
-            if op[0] == "tick" and any(x.startswith("m.restart") for x in r.get("items", [])):
-                restart_requested = True
+            if op[0] == "tick":
+                restart_credit += sum(1 for x in r.get("items", []) if x.startswith("m.restart"))
+                if any(x.startswith("m.stop") for x in r.get("items", [])):
+                    stop_req = True
         if (running, holding, paused) != (r["started"], r["holding"], r["paused"]):
             fail("control-state-message-differs-from-flags", i, f"{r['ctl']}")
         if st == "Stopped" and running:
@@ -116,9 +125,31 @@ def oracle(case: dict, recs: list[dict]) -> list[Failure]:
                                                               f"{r['run_id']}")
         if running and st not in ("Restarting", "Stopped") and st != table(paused, holding):
             fail("state-table-mismatch", i, f"System State {st}, paused={paused} holding={holding}")
-        if st == "Restarting" and not restart_requested:
-            fail("restarting-outside-restart", i, "no Restart was requested")
         rid = r["run_id"]
+        # run id transitions: cleared only by a requested Stop / Restart, replaced only by a requested Restart
+        if last_id is not None and rid is None:
+            if not (stop_req or episode or restart_credit > 0 or not quiet):
+                fail("runid-cleared-without-stop-or-restart", i,
+                     f"run id {last_id} cleared, no Stop/Restart requested")
+            if not stop_req and not episode and restart_credit > 0:
+                episode = True      # both halves of a requested Restart ran before Restarting could be observed
+        if rid is not None and rid != last_id:
+            if episode:
+                if not start_pending:
+                    restart_credit = max(0, restart_credit - 1)     # the restart completed
+                episode = False
+            elif last_id is not None:
+                if restart_credit <= 0:
+                    fail("runid-replaced-without-restart-request", i, f"{last_id} -> {rid}")
+                restart_credit = max(0, restart_credit - 1)
+            stop_req = False
+        if st == "Restarting" and not episode:
+            if restart_credit <= 0:
+                fail("restarting-without-restart-request", i,
+                     "System State Restarting although every requested Restart has completed")
+            episode = True
+        if i > 0 and r["op"][0] == "tick":
+            start_pending = False
         if (rid is not None) != running:
             fail("runid-presence", i, f"run id {rid!r} but is_running={running}")
         if rid is not None:
@@ -131,6 +162,28 @@ def oracle(case: dict, recs: list[dict]) -> list[Failure]:
         last_id = rid
         prev = r
     return out[:1]
+
+
+def gen_restart_stop_start(rng) -> dict:
+    """Shape: a Restart that completes (user or method), later Stop, some ticks, then Start with or without a
+    tick before the next command; random fillers."""
+    t = ["tick", 8, 8, 0]
+
+    def ticks(lo, hi):
+        return [list(t) for _ in range(rng.randrange(lo, hi + 1))]
+    method = rng.choice(["Mark: a", "Wait: 0.5s\nRestart", "Mark: a\nPause: 0.5s\nMark: b"])
+    ops = [["user", "Start"]] + ticks(2, 4)
+    if "Restart" not in method:
+        ops += [["user", "Restart"]]
+    ops += ticks(3, 8)
+    if rng.random() < 0.4:
+        ops += [["user", rng.choice(["Pause", "Hold"])]] + ticks(1, 2)
+    ops += [["user", "Stop"]] + ticks(2, 4) + [["user", "Start"]]
+    ops += rng.choice([[], [], ticks(1, 1), [["user", "Stop"]], [["user", "Pause"]]])
+    ops += ticks(2, 5)
+    if rng.random() < 0.5:
+        ops += [["user", "Stop"]] + ticks(2, 3) + [["user", "Start"]] + ticks(1, 3)
+    return {"method": method, "ops": ops, "quiet": True}
 
 
 def gen_cases(ctx: Check) -> dict[str, list[dict]]:
@@ -152,6 +205,9 @@ def gen_cases(ctx: Check) -> dict[str, list[dict]]:
         ("Hold: 2s\nMark: b", [["user", "Start"], t, t, t]),
         ("Pause: 2s\nMark: b", [["user", "Start"], t, t, t, ["user", "Unpause"], t]),
         ("Pause: 2s\nMark: b", [["user", "Start"], t, t, t, ["user", "Restart"], t]),
+        # a completed Restart, then Stop, ticks: what follows includes Start with and without a tick in between
+        ("Mark: a", [["user", "Start"], t, t, ["user", "Restart"], t, t, t, ["user", "Stop"], t, t]),
+        ("Restart", [["user", "Start"], t, t, t, t, t, t, ["user", "Stop"], t, t]),
     ]:
         win += R.enumerate_sessions(alpha, ctx.n(3, 4), prefix, [method])
     streams["window"] = win
@@ -162,6 +218,7 @@ def gen_cases(ctx: Check) -> dict[str, list[dict]]:
         c = R.gen_session(rng, rng.randrange(5, 41), malformed=False, errors=False)
         c["quiet"] = True
         rnd.append(c)
+    rnd += [gen_restart_stop_start(rng) for _ in range(ctx.n(40, 800))]
     streams["random"] = rnd
     mal = []
     for _ in range(ctx.n(150, 3000)):
@@ -207,7 +264,8 @@ def run(ctx: Check) -> int:
                 "Stop, Restart); "
                 "window: all sequences <=3/4 inside a running Stop, Restart (both phases), resident timed Pause / "
                 "Hold, after an early Unpause; random: adaptive sessions (mostly commands valid in the current "
-                "state, generated methods with blocks/watches and timed commands, varied increments); malformed: "
+                "state, generated methods with blocks/watches and timed commands, varied increments) plus templated "
+                "'completed Restart ... Stop, ticks, Start with/without a tick' schedules; malformed: "
                 "unknown / wrong-case names, bad arguments, injected errors. Non-trivial = a run was started.")
     all_mout = []
     all_cases = []
